@@ -73,3 +73,7 @@ def uf_str(name, arg):
 
 def opaque(tag, *deps):
     raise RuntimeError('opaque values exist in symbolic runs only')
+
+
+def ghost_events():
+    raise RuntimeError('the ghost event trace exists in symbolic runs only')
